@@ -193,6 +193,11 @@ func cmdTwo(args []string) {
 				}
 			}
 			q.History = h
+			// sometimes the graph first learns an ID through a Task value of its own and is then given the shared one
+			if r.Intn(2) == 0 && len(q.Tasks) > 0 {
+				id := q.Tasks[r.Intn(len(q.Tasks))]
+				q.History = append([]dh.Op{{Op: "add", T: id, New: true}}, q.History...)
+			}
 		}
 		res := dh.RunPlans([]*dh.Plan{&p1, &p2})
 		// direct observation: the same Task is never inside its function in both graphs at once
